@@ -307,7 +307,35 @@ Section Store.
     change (tl (states s (o :: r))) with (states (apply_op s o) r).
     rewrite last_states_gen. reflexivity.
   Qed.
+  (* a log of uploads in which a key always gets the same value *)
+  Lemma get_after_ups_functional l : forall s k v,
+    forallb is_up l = true -> In (Up k v) l -> (forall v', In (Up k v') l -> v' = v) ->
+    get (apply_ops s l) k = Some v.
+  Proof.
+    induction l as [|o r IH] using rev_ind; intros s k v Hall Hin Hf; [contradiction|].
+    rewrite apply_ops_app. simpl. rewrite forallb_app in Hall. apply andb_true_iff in Hall as [Hr Ho].
+    destruct o as [k0 v0|k0]; [|simpl in Ho; discriminate]. simpl.
+    destruct (keqb k k0) eqn:E.
+    - apply keqb_spec in E. subst k0. rewrite get_put_same. f_equal. apply Hf. apply in_or_app. right. left. reflexivity.
+    - rewrite get_put_other by (apply keqb_false; exact E).
+      apply IH; [exact Hr| |].
+      + apply in_app_or in Hin as [Hin|[Hin|[]]]; [exact Hin|]. inversion Hin; subst. rewrite keqb_refl in E. discriminate.
+      + intros v' Hv'. apply Hf. apply in_or_app. left. exact Hv'.
+  Qed.
+
+  (* deletions only take away *)
+  Lemma get_some_after_dels l : forall s k v,
+    forallb is_del l = true -> get (apply_ops s l) k = Some v -> get s k = Some v.
+  Proof.
+    unfold apply_ops. induction l as [|o r IH]; intros s k v Hall H; simpl in *; [exact H|].
+    apply andb_true_iff in Hall as [Ho Hr]. destruct o as [k0 v0|k0]; [discriminate|].
+    apply IH in H; [|exact Hr]. simpl in H.
+    destruct (keqb k k0) eqn:E.
+    - apply keqb_spec in E. subst. rewrite get_del_same in H. discriminate.
+    - rewrite get_del_other in H; [exact H|]. apply keqb_false. exact E.
+  Qed.
 End Store.
+
 
 Arguments Up {K V}.
 Arguments Del {K V}.
